@@ -179,6 +179,21 @@ func (a *dataSetAof) Close() {
 	}
 }
 
+func (a *dataSetAof) hasReaders() bool {
+	a.mux.RLock()
+	defer a.mux.RUnlock()
+	return len(a.readers) > 0
+}
+
+func (a *dataSetAof) closeReaders() {
+	a.mux.Lock()
+	readers := append([]*AofRotateReader(nil), a.readers...)
+	a.mux.Unlock()
+	for _, r := range readers {
+		r.Close()
+	}
+}
+
 func (a *dataSetAof) CloseWriter() {
 	if a.rwRef.Load() == 0 { //fast path
 		return
@@ -234,6 +249,9 @@ type dataSet struct {
 	aofSegs    []*dataSetAof // aof segments
 	aofMap     map[int64]*dataSetAof
 	lastAofSeg atomic.Int64
+	// empty last segments that were taken out of the index while readers were waiting on them :
+	// those readers are closed together with the data set
+	trimmed []*dataSetAof
 }
 
 func (ds *dataSet) TruncateGap() (*dataSetRdb, []*dataSetAof) {
@@ -325,12 +343,17 @@ func (ds *dataSet) Close() {
 	ds.mux.Lock()
 	rdb := ds.rdb
 	aof := ds.aofSegs
+	trimmed := ds.trimmed
+	ds.trimmed = nil
 	ds.mux.Unlock()
 	if rdb != nil {
 		rdb.Close()
 	}
 	for _, a := range aof {
 		a.Close()
+	}
+	for _, a := range trimmed {
+		a.closeReaders()
 	}
 }
 
@@ -362,6 +385,9 @@ func (ds *dataSet) trimLastEmptyAof() {
 	if lastAof.rtSize.Load() == 0 {
 		delete(ds.aofMap, lastAof.Left())
 		ds.aofSegs = ds.aofSegs[:aofLast]
+		if lastAof.hasReaders() {
+			ds.trimmed = append(ds.trimmed, lastAof)
+		}
 	}
 }
 
